@@ -151,6 +151,7 @@ pub struct World {
     pub entropy_seed: u64,
     pub entropy_ord: u64,
     pub record_clock: bool,
+    pub last_timer_id: u64,
     /// set by the probe policy at its first compute_next_update_time call
     pub probe_capture: Option<(Vec<AppRec>, SchedRec, ProtoRec)>,
     pub is_probe: bool,
@@ -204,6 +205,7 @@ impl World {
             entropy_seed,
             entropy_ord: 0,
             record_clock: true,
+            last_timer_id: 0,
             probe_capture: None,
             is_probe: false,
             jumps: Vec::new(),
